@@ -261,6 +261,9 @@ def evalApprox (op : String) (a : List Tok) (rhs : List Tok) : Option (Bool × S
       let c : FBiquadCfg Float := ⟨f64 b0, f64 b1, f64 b2, f64 a1, f64 a2, f64 u, f64 mn, f64 mx⟩
       let ((m0, m1), my) := fbiquadUpdate2 bops64 c (f64 s0, f64 s1) (f64 x0)
       some (f64eq m0 (f64 p) && f64eq m1 (f64 q) && f64eq my (f64 y), s!"{showList [b64 m0, b64 m1]} {b64 my}")
+  | "f_quantize", [.int w, .int q, .int v], [.int r] =>
+    let m := quantizeInt w.toNat q.toNat (fOfBits v)
+    some (m == r, toString m)
   | "f_consts", [.int t], [.list r] =>
     -- `<f32/f64 as Coefficient>::{ONE, NEG_ONE, ZERO, MIN, MAX}` = 1, -1, 0, -inf, +inf
     let m : List Int := if t == 32 then [b32 1, b32 (-1), b32 0, b32 (Float32.ofBits 0xff800000), b32 (Float32.ofBits 0x7f800000)]
